@@ -514,6 +514,7 @@ pub const C12: ConcCheck = ConcCheck {
 };
 pub const C12R: ConcCheck = ConcCheck { sub: "probe-resize", mix: Mix::Resize, ..C12 };
 pub const C12C: ConcCheck = ConcCheck { sub: "probe-readers", mix: Mix::Readers, ..C12 };
+pub const C12T: ConcCheck = ConcCheck { sub: "probe-treemove", mix: Mix::TreeMove, ..C12 };
 
 fn probe_budget(tier: Tier, seed: u64) -> Budget {
     // the probes already visit every step of the base schedule; preemptions add writer/writer interleavings
@@ -529,6 +530,7 @@ fn c12_shard(ctx: &Ctx, out: &mut ShardOut) {
     C12.run(ctx, &pool, 12, ctx.share(ctx.by_tier(96, 400)) as u32, &b, out);
     C12R.run(ctx, &pool, 13, ctx.share(ctx.by_tier(64, 300)) as u32, &b, out);
     C12C.run(ctx, &pool, 14, ctx.share(ctx.by_tier(48, 200)) as u32, &b, out);
+    C12T.run(ctx, &pool, 15, ctx.share(ctx.by_tier(48, 200)) as u32, &b, out);
     out.exhaustive_parts.push("for each executed schedule: every yield point of every writer is a suspension point".into());
 }
 fn c12_replay(sub: &str, case: &Value) -> Result<(), CaseFail> {
@@ -537,6 +539,7 @@ fn c12_replay(sub: &str, case: &Value) -> Result<(), CaseFail> {
     match sub {
         "probe-resize" => C12R.replay(&pool, case, &b),
         "probe-readers" => C12C.replay(&pool, case, &b),
+        "probe-treemove" => C12T.replay(&pool, case, &b),
         _ => C12.replay(&pool, case, &b),
     }
 }
@@ -600,6 +603,7 @@ pub const C07R: ConcCheck = ConcCheck { sub: "iter-resize", mix: Mix::IterResize
 pub const C07C: ConcCheck = ConcCheck { sub: "iter-probe", mix: Mix::PerKey, max_threads: 2, max_ops: 3, mk_probe: Some(c07_probe), ..C07B };
 pub const C07D: ConcCheck = ConcCheck { sub: "iter-probe-resize", mix: Mix::Resize, max_threads: 2, max_ops: 3, mk_probe: Some(c07_probe), ..C07B };
 pub const C07E: ConcCheck = ConcCheck { sub: "iter-probe-drain", mix: Mix::Drain, max_threads: 2, max_ops: 3, mk_probe: Some(c07_probe), ..C07B };
+pub const C07T: ConcCheck = ConcCheck { sub: "iter-probe-treemove", mix: Mix::TreeMove, max_threads: 2, max_ops: 3, mk_probe: Some(c07_probe), ..C07B };
 pub const C07F: ConcCheck = ConcCheck { sub: "iter-drain", mix: Mix::Drain, max_threads: 3, max_ops: 3, ..C07B };
 pub const C07L: ConcCheck = ConcCheck { sub: "iter-long", mix: Mix::LongReaders, max_threads: 5, max_ops: 8, ..C07B };
 
@@ -619,6 +623,7 @@ fn c07_shard(ctx: &Ctx, out: &mut ShardOut) {
     };
     C07C.run(ctx, &pool, 9, ctx.share(ctx.by_tier(96, 400)) as u32, &pb, out);
     C07D.run(ctx, &pool, 10, ctx.share(ctx.by_tier(64, 300)) as u32, &pb, out);
+    C07T.run(ctx, &pool, 14, ctx.share(ctx.by_tier(48, 300)) as u32, &pb, out);
     let db = match ctx.tier {
         Tier::Quick => Budget { single: 30, double: 0, coarse2: 260, tapes: 2, tape_seed: ctx.shard_seed(88), triple: 0 },
         Tier::Thorough => Budget { single: 300, double: 300, coarse2: 3000, tapes: 20, tape_seed: ctx.shard_seed(88), triple: 0 },
@@ -639,6 +644,7 @@ fn c07_replay(sub: &str, case: &Value) -> Result<(), CaseFail> {
         "iter-resize" => C07R.replay(&Pool::new(), case, &b),
         "iter-probe" => C07C.replay(&Pool::new(), case, &pb),
         "iter-probe-resize" => C07D.replay(&Pool::new(), case, &pb),
+        "iter-probe-treemove" => C07T.replay(&Pool::new(), case, &pb),
         "iter-probe-drain" => C07E.replay(&Pool::new(), case, &Budget { single: 300, double: 300, coarse2: 3000, tapes: 20, tape_seed: 1, triple: 0 }),
         "iter-drain" => C07F.replay(&Pool::new(), case, &b),
         "iter-long" => C07L.replay(&Pool::new(), case, &Budget { single: 0, double: 0, coarse2: 0, tapes: 100, tape_seed: 1, triple: 0 }),
@@ -1048,6 +1054,8 @@ pub const C15: ConcCheck = ConcCheck { asked: "C15", sub: "hb", mix: Mix::PerKey
 pub const C15R: ConcCheck = ConcCheck { sub: "hb-resize", mix: Mix::Resize, ..C15 };
 pub const C15I: ConcCheck = ConcCheck { sub: "hb-readers", mix: Mix::Readers, ..C15 };
 pub const C15L: ConcCheck = ConcCheck { sub: "hb-long", mix: Mix::Long, max_threads: 8, max_ops: 10, ..C15 };
+pub const C15T: ConcCheck = ConcCheck { sub: "hb-treemove", mix: Mix::TreeMove, ..C15 };
+pub const C15H: ConcCheck = ConcCheck { sub: "hb-helpers", mix: Mix::Helpers, max_threads: 4, ..C15 };
 
 fn c15_shard(ctx: &Ctx, out: &mut ShardOut) {
     let pool = Pool::new();
@@ -1057,12 +1065,16 @@ fn c15_shard(ctx: &Ctx, out: &mut ShardOut) {
     C15I.run(ctx, &pool, 17, ctx.share(ctx.by_tier(320, 8_000)) as u32, &b, out);
     let lb = Budget { single: 0, double: 0, coarse2: 0, tapes: ctx.by_tier(16, 100) as usize, tape_seed: ctx.shard_seed(96), triple: 0 };
     C15L.run(ctx, &pool, 18, ctx.share(ctx.by_tier(64, 1_500)) as u32, &lb, out);
+    C15T.run(ctx, &pool, 19, ctx.share(ctx.by_tier(320, 6_000)) as u32, &b, out);
+    C15H.run(ctx, &pool, 20, ctx.share(ctx.by_tier(96, 1_500)) as u32, &super::concchecks::helpers_budget(ctx.tier, ctx.shard_seed(99)), out);
 }
 fn c15_replay(sub: &str, case: &Value) -> Result<(), CaseFail> {
     let b = budget_for(Tier::Thorough, 1);
     match sub {
         "hb-resize" => C15R.replay(&Pool::new(), case, &b),
         "hb-readers" => C15I.replay(&Pool::new(), case, &b),
+        "hb-treemove" => C15T.replay(&Pool::new(), case, &b),
+        "hb-helpers" => C15H.replay(&Pool::new(), case, &super::concchecks::helpers_budget(Tier::Thorough, 1)),
         "hb-long" => C15L.replay(&Pool::new(), case, &Budget { single: 0, double: 0, coarse2: 0, tapes: 100, tape_seed: 1, triple: 0 }),
         _ => C15.replay(&Pool::new(), case, &b),
     }
